@@ -117,6 +117,19 @@ theorem helpers_agree : ∀ toc ∈ List.range 256,
     (∀ fs ∈ [8000, 12000, 16000, 24000, 48000], samplesPerFrame toc fs * (48000 / fs) = samplesPerFrame toc 48000) := by
   decide +kernel
 
+/-- On every accepted packet the frame-count helper reports the parser's frame count. -/
+theorem nb_frames_agrees (bs : Bytes) (hb : BytesOk bs) (r : Parsed) (h : parseImpl false bs = .ok r) :
+    getNbFrames bs = .ok r.count :=
+  FramingProofs.getNbFrames_agrees bs hb r h
+
+/-- The LBRR-flag helper (as repaired by the `fix:` commit 718d801e) reads only the packet, for every
+    byte string.  For the code before the repair this statement is false: `hasLbrr [0x08]` had to
+    read `frames[0][0]` of an empty frame. -/
+theorem has_lbrr_reads_only_packet (bs : Bytes) (hb : BytesOk bs) :
+    hasLbrr bs ≠ .oob ∧ hasLbrr bs ≠ .abort := by
+  have := FramingProofs.hasLbrr_nofault bs hb
+  constructor <;> intro h <;> rw [h] at this <;> simp [fault] at this
+
 /-! ### Non-vacuity: concrete packets satisfy the hypotheses -/
 
 /-- A 3-frame code-3 VBR packet (CELT 20 ms) with a two-link padding chain is `Valid`. -/
